@@ -28,7 +28,7 @@ _th = {}
 def required(tier):
     return ['equal-activity', 'scale', 'top-chemical', 'history', 'history:use_cache', 'history:no-cache', 'history:T-decrease', 'sle:solute-only', 'sle:solubility', 'sle:pure', 'sle:gamma=ideal', 'sle:solid-in-feed', 'sle:history', 'sle:history:pure-then-solvent', 'method:shgo', 'method:pseudo equilibrium',
             # coverage audit
-            'method:differential evolution', 'history:cache-hit', 'history:last-call-same', 'history:last-call-within', 'history:last-call-outside', 'history:last-call-scaled', 'history:re-pooled', 'history:chemical-set-changed',
+            'method:differential evolution', 'history:cache-hit', 'history:last-call-same', 'history:last-call-within', 'history:last-call-outside', 'history:last-call-scaled', 'history:last-call-same-T-other-z', 'history:re-pooled', 'history:chemical-set-changed',
             'history-reset', 'history:top-changed', 'history:method-switched', 'composition:wide', 'composition:water-free', 'composition:zero-flow-member', 'feed:pre-split', 'pre-split', 'form:P', 'form:single_loop',
             'form:update=False', 'call-form', 'sle2', 'sle:spec=H', 'sle:P-given', 'sle:activity_coefficient', 'sle:solute-not-first', 'sle:second-solute-solid', 'sle:pure-in-package', 'sle:pure:next-to-Tm']
 
@@ -104,11 +104,15 @@ def more_lle(rng, c):
     r = rng.random()
     if r < 0.45:
         # the last earlier call is on / next to the judged point: exactly the same, within the cache tolerances (1e-3 K, 1e-5 in mole fraction), just outside them, or the same composition at another scale
-        kind = rng.choice(['same', 'same', 'within', 'within', 'outside', 'scaled'])
+        kind = rng.choice(['same', 'same', 'within', 'within', 'outside', 'scaled', 'same-T-other-z', 'same-T-other-z'])
         h = {'kind': kind, 'dT': 0.0, 'mult': None}
         if kind == 'within': h['dT'] = rng.choice([0.0, 5e-4, -5e-4]); h['mult'] = [1 + rng.choice([0.0, 5e-6, -5e-6]) for _ in ids]
         elif kind == 'outside': h['dT'] = rng.choice([2e-3, -2e-3, 0.0]); h['mult'] = [1 + rng.choice([2e-5, -2e-5]) for _ in ids] if (h['dT'] == 0.0 or rng.random() < 0.5) else None
         elif kind == 'scaled': h['k'] = round(10 ** rng.uniform(-2, 2), 5)
+        elif kind == 'same-T-other-z':          # the remembered temperature matches, the remembered composition does not: the coefficients must not be reused
+            h['dT'] = rng.choice([0.0, 5e-4, -5e-4]); h['mult'] = [round(rng.uniform(0.3, 3), 3) for _ in ids]
+            if rng.random() < 0.6: c['method'] = rng.choice(['shgo', 'shgo', 'differential evolution'])     # the default method is masked by its recorded finding
+            c['use_cache'] = True
         c['hist'] = c['hist'][:3] + [h]
         c['use_cache'] = rng.random() < 0.75
         c['repool'] = [rng.choice([0.0, 1.0, round(rng.random(), 3)]) for _ in ids] if rng.random() < 0.5 else None     # the judged feed distributed differently over l / L
